@@ -11,7 +11,12 @@ RULE = ('each content is built by every route (bin/hex text, token string incl. 
         '(on a mutable class) is run on each, under msb0 and lsb0; every result must equal the result for Bits(bin=content). Routes include duplicates by copy.deepcopy / pickle (of slices, files, containers, '
         'of originals edited before or afterwards); the duplicates of the object under test are probed, edited in place and kept while the object is edited, judged against a str model of the bits alone. '
         'bytes= with offset / length (and auto, setter, pack, build, + and append) is given ~190 kinds of carriers of the same raw bytes (array / memoryview.cast / ctypes / numpy items of 1-8 bytes, '
-        'multi-dimensional, strided, reversed, sliced, subclasses, mmap, iterables), judged against the bits of the raw bytes. non-trivial = route other than bin=; distinct by (content, route, mode)')
+        'multi-dimensional, strided, reversed, sliced, subclasses, mmap, iterables), judged against the bits of the raw bytes. '
+        'operands: one operation L op X (39 operators / methods / constructors taking a bitstring-like, 30 operations of L alone) with the same bits x carried by ~60 plain kinds of X (text spellings, bytes-likes, iterables, bitarrays, '
+        'binary streams in every state) and by bitstrings of each class built by every route, incl. 14 ways of making an empty one, L built by a route too, every pair of classes, empty operands on either side: value and class from a str model, '
+        'the result edited in place / its operands edited afterwards change nothing else (nor a re-parse of the same text). source: BytesIO (subclass, buffered wrappers) and file handles of each io class in 18 / 9 states '
+        '(written, partly read, seeked, extended, truncated, used before with / without offset ...) used repeatedly with windows: the bits are those of the bytes held, whatever the position. '
+        'non-trivial = route other than bin=; distinct by (content, route, mode)')
 ASSUMPTIONS = ['a file is its bytes (mmap itself is not modelled)', 'repr of a file-backed object shows filename= by design and is excluded; str is included']
 FILE_ROUTES = ['file_whole', 'file_len', 'file_off', 'file_off_len', 'file_unaligned', 'handle', 'handle_off_len', 'file_shorter_nonmult',
                'file_exact_len', 'handle_exact_len']
@@ -22,6 +27,11 @@ DEEP_ROUTES = ['deepcopy', 'deepcopy_container', 'pickle', 'pickle_container', '
 ALL_ROUTES = ROUTES + FILE_ROUTES + ['hex', 'cachehit', 'array', 'memoryview', 'fromstring', 'bitarray_little', 'bitarray_little_window', 'after_setter_hex', 'after_setter_bin', 'after_setter_bits', 'after_setter_bytes'] + DEEP_ROUTES
 
 def gen_cases(rng, tier):
+    yield from route_cases(rng, tier)
+    yield from operand_cases(rng, tier)
+    yield from source_cases(rng, tier)      # (last: the first and last observations of a run are kept in the evidence file, and these are short)
+
+def route_cases(rng, tier):
     N = 40 if tier == 'quick' else 500
     for i in range(N):
         n = rng.choice([8, 16, 20, 24, 33, 64, 100, 4, 1]) if rng.random() < 0.8 else rand_len(rng, tier)
@@ -44,6 +54,18 @@ def gen_cases(rng, tier):
         v = lambda: rng.choice([None, None, -T - 3, -T, -T + 1, -2, -1, 0, 1, 2, T // 2, T - 1, T, T + 5, rng.randrange(-T - 2, T + 3)])
         yield {'op': 'store', 'src': src, 'offset': off, 'length': ln, 'key': [v(), v(), rng.choice([None, 1, 2, 3, -1, -1, -2, -3, -T, T, 7])],
                'key2': [v(), v()], 'cls': rng.choice(CLASSES), 'handle': rng.random() < 0.3}
+
+    # the same windows with every slice bound on or next to a boundary (None, 0, +-1, +-len, +-len+-1, beyond) and every sign / size of step, mostly on windows that keep the file mapped
+    for i in range(150 if tier == 'quick' else 1000):
+        nb = rng.choice([1, 2, 3, 5, 8])
+        src = [rng.randrange(256) for _ in range(nb)]
+        T = nb * 8
+        off, ln = rng.choice([(None, None), (0, T), (None, T), (0, T), (None, T), (0, None), (None, T - 3), (0, T - 8), (3, None), (5, T - 5)])
+        W = T - (off or 0) if ln is None else ln
+        bound = lambda: rng.choice([None, -W - 3, -W - 1, -W, -W + 1, -2, -1, 0, 1, W - 1, W, W + 1, W + 9, -T - 1, -T, T])
+        step = rng.choice([k_ for k_ in [None, 1, 2, 3, -1, -1, -2, -3, -W, W, -W - 1, W + 1, 7, -7] if k_ != 0])
+        start = rng.choice([None, -W - 3, -W - 1, -W - 1, -W, -W + 1, -1, 0, W - 1, W, W + 5]) if (step or 1) < 0 else bound()
+        yield {'op': 'store', 'src': src, 'offset': off, 'length': ln, 'key': [start, bound(), step], 'key2': [bound(), bound()], 'cls': rng.choice(CLASSES + ['Bits', 'ConstBitStream']), 'handle': rng.random() < 0.4}
 
     # bytes= (and the other routes that take bytes-like data) given every kind of object that holds raw bytes: the bits are bits [offset, offset+length) of the raw bytes,
     # whatever the width, the shape, the strides or the type of the items of the object that carries them
@@ -286,6 +308,551 @@ def oracle_buffer(c, obs):
             return f"{what(*b['window'])}: {name} is {str(g)[:200]} but its bit content alone determines {str(e)[:200]}"
         if b['n_diffs']:
             return f"{what(*b['window'])} differs from the bin= object of the same bits in {b['n_diffs']} operations, e.g. {str(b['diffs'][0])[:300]}"
+    return None
+
+# ---------------------------------------------------------------------------------------------------------------------------------------------
+# Binary streams as sources, in every state (op 'source'). A BytesIO (or a subclass, or a buffered wrapper around one where the library takes it) and
+# a binary file handle of each io class HOLD bytes: getvalue() / the bytes of the file. However the object came to hold them (constructor argument,
+# write() calls, overwritten, extended, truncated) and wherever its position stands (never touched, partly read, read to the end, seek()ed, left where an
+# earlier bitstring made from it with or without offset / length left it), a bitstring made from it has the bits [offset, offset+length) of the bytes
+# it holds, for every class, by the positional initialiser, and the same source can be used again and again.
+# ---------------------------------------------------------------------------------------------------------------------------------------------
+BYTESIO_STATES = ['fresh', 'written', 'written_chunks', 'read_some', 'read_all', 'readline', 'seek', 'seek_end', 'seek_past_end', 'extended', 'overwritten', 'truncated',
+                  'after_offset_use', 'after_length_use', 'after_plain_use', 'after_operand_use', 'getbuffer_edit', 'read_then_seek0']
+HANDLE_STATES = ['fresh', 'read_some', 'read_all', 'seek', 'seek_end', 'after_offset_use', 'after_plain_use', 'after_operand_use', 'rewritten_flushed']
+SOURCE_KINDS = ['BytesIO', 'BytesIO_subclass', 'BufferedReader(BytesIO)', 'BufferedRandom(BytesIO)', 'file_rb', 'file_r+b', 'file_raw']
+MAY_REFUSE = ('BufferedReader(BytesIO)', 'BufferedRandom(BytesIO)')      # not documented as initialisers: the library may refuse them; when it takes them the bits are those of the bytes held
+
+class _BytesIOSub(io.BytesIO): pass
+
+def make_source(kind, state, raw, k, tmp, keep):
+    """(source object, function returning the bytes it holds) for a binary stream of the given kind brought to hold `raw` and positioned by `state` (k: a byte count)"""
+    import bitstring
+    raw = bytes(raw); nb = len(raw); k = min(k, nb)
+    other = bytes((x ^ 0x5a) for x in raw)
+    if kind in ('BytesIO', 'BytesIO_subclass', 'BufferedReader(BytesIO)', 'BufferedRandom(BytesIO)'):
+        B = _BytesIOSub if kind == 'BytesIO_subclass' else io.BytesIO
+        if state in ('written', 'written_chunks', 'extended', 'overwritten', 'truncated'):
+            if state == 'written': b = B(); b.write(raw)
+            elif state == 'written_chunks':
+                b = B()
+                for i in range(0, nb, max(1, k)): b.write(raw[i:i + max(1, k)])
+            elif state == 'extended':
+                b = B(raw[:k]); b.seek(0, 2); b.write(raw[k:]); b.seek(min(1, nb))
+            elif state == 'overwritten':
+                b = B(other); b.seek(0); b.write(raw)
+            else:
+                b = B(raw + b'\xee\xdd'); b.seek(nb + 1); b.truncate(nb)
+        else:
+            b = B(raw)
+            if state == 'read_some': b.read(k)
+            elif state == 'read_all': b.read()
+            elif state == 'readline': b.readline()
+            elif state == 'seek': b.seek(k)
+            elif state == 'seek_end': b.seek(0, 2)
+            elif state == 'seek_past_end': b.seek(nb + 3)
+            elif state == 'after_offset_use': bitstring.Bits(b, offset=min(8 * k, 8 * nb))
+            elif state == 'after_length_use': bitstring.ConstBitStream(b, length=min(8 * k + 3, 8 * nb))
+            elif state == 'after_plain_use': bitstring.Bits(b); bitstring.BitStream(b)
+            elif state == 'after_operand_use': bitstring.Bits('0b1') + b; bitstring.Bits() == b
+            elif state == 'getbuffer_edit':
+                b = B(other)
+                with b.getbuffer() as view: view[:] = raw
+                b.seek(k)
+            elif state == 'read_then_seek0': b.read(k); b.seek(0)
+        held = b.getvalue
+        if kind == 'BufferedReader(BytesIO)': b = io.BufferedReader(b); keep.append(b)
+        if kind == 'BufferedRandom(BytesIO)': b = io.BufferedRandom(b); keep.append(b)
+        return b, held
+    fd, path = tempfile.mkstemp(prefix='verif_c08src_'); tmp.append(path)
+    with os.fdopen(fd, 'wb') as fh: fh.write(other if state == 'rewritten_flushed' else raw)
+    fh = open(path, {'file_rb': 'rb', 'file_r+b': 'r+b', 'file_raw': 'rb'}[kind], **({'buffering': 0} if kind == 'file_raw' else {}))
+    keep.append(fh)
+    if state == 'read_some': fh.read(k)
+    elif state == 'read_all': fh.read()
+    elif state == 'seek': fh.seek(k)
+    elif state == 'seek_end': fh.seek(0, 2)
+    elif state == 'after_offset_use': bitstring.Bits(fh, offset=min(8 * k, 8 * nb))
+    elif state == 'after_plain_use': bitstring.Bits(fh); bitstring.BitStream(fh)
+    elif state == 'after_operand_use': bitstring.Bits('0b1') + fh; bitstring.Bits() == fh
+    elif state == 'rewritten_flushed':
+        if kind == 'file_r+b':
+            fh.seek(0); fh.write(raw); fh.flush()
+        else:
+            with open(path, 'r+b') as w: w.write(raw)
+    def held():
+        with open(path, 'rb') as r: return r.read()
+    return fh, held
+
+def source_states(kind): return BYTESIO_STATES if 'BytesIO' in kind else [s for s in HANDLE_STATES]
+
+def source_cases(rng, tier):
+    reps = 1 if tier == 'quick' else 10
+    for rep in range(reps):
+        for kind in SOURCE_KINDS:
+            for state in source_states(kind):
+                nb = rng.choice([1, 2, 3, 4, 5, 8, 9, 12, 16, 17])
+                if tier == 'thorough' and rng.random() < 0.1: nb = rng.choice([255, 256, 257, 1025])
+                if 'BytesIO' in kind and rng.random() < 0.06: nb = 0
+                raw = [rng.randrange(256) for _ in range(nb)] if rng.random() < 0.85 else [rng.choice([0, 255, 1, 0x80])] * nb
+                T = nb * 8
+                uses = []
+                for _ in range(rng.choice([1, 2, 3, 4])):
+                    shape = rng.choice(['plain', 'plain', 'plain', 'offset_only', 'length_only', 'both', 'both'])
+                    o = l = None
+                    if shape in ('offset_only', 'both'): o = max(0, rng.choice([0, 1, 3, 7, 8, 9, 13, 16, T - 9, T - 8, T - 1, T, T + 1, rng.randrange(0, T + 9)]))
+                    rem = T - (o or 0)
+                    if shape in ('length_only', 'both'): l = max(0, rng.choice([0, 1, 5, 8, 16, rem, rem, rem - 1, rem + 1, rem - 8, rng.randrange(0, T + 9)]))
+                    between = rng.choice([None, None, 'read1', 'seek0', 'seek1', 'seek_end', 'readall'])
+                    uses.append([rng.choice(CLASSES), o, l, between])
+                yield {'op': 'source', 'kind': kind, 'state': state, 'k': rng.choice([0, 1, 1, 2, 3, nb // 2, nb]), 'raw': raw, 'uses': uses, 'lsb0': rng.random() < 0.3, 'seed': rng.randrange(1 << 30),
+                       'battery': rng.random() < 0.5}
+
+def run_source(c):
+    import bitstring
+    raw = bytes(c['raw'])
+    keep, tmp = [], []
+    bitstring.options.lsb0 = bool(c['lsb0'])
+    def show(s, w):
+        r = {'cls': type(s).__name__, 'bin': s.bin, 'len': len(s), 'tobytes': list(s.tobytes()), 'count1': s.count(1),
+             'eq': [s == bitstring.Bits(bin=w), bitstring.Bits(bin=w) == s], 'rev': s[::-1].bin, 'first8': s[:8].bin if not c['lsb0'] else None}
+        if hasattr(s, 'pos'):
+            r['pos'] = s.pos
+            r['read'] = list(attempt(lambda: s.read(min(8, len(s))).bin)) if not c['lsb0'] else None
+            s.pos = 0
+        return r
+    def f():
+        src, held = make_source(c['kind'], c['state'], raw, c['k'], tmp, keep)
+        out = {'held0': list(held()), 'uses': [], 'battery': None}
+        first = None
+        for cls, o, l, between in c['uses']:
+            if between == 'read1': attempt(lambda: src.read(1))
+            elif between == 'seek0': attempt(lambda: src.seek(0))
+            elif between == 'seek1': attempt(lambda: src.seek(min(1, len(raw))))
+            elif between == 'seek_end': attempt(lambda: src.seek(0, 2))
+            elif between == 'readall': attempt(lambda: src.read())
+            kw = {}
+            if o is not None: kw['offset'] = o
+            if l is not None: kw['length'] = l
+            C = cls_of(cls)
+            rr = attempt(lambda: show(C(src, **kw), window_bits(raw, o, l)))
+            out['uses'].append([rr[0], rr[1], list(held())])
+            if rr[0] == 'ok' and first is None and window_valid(raw, o, l): first = (cls, o, l)
+        if isinstance(src, io.BytesIO):
+            # afterwards the owner of the buffer writes to it (it must still be able to: no export may be left behind) - bitstrings made from it before keep their bits
+            made = []
+            for cls, o, l, between in c['uses']:
+                kw = {}
+                if o is not None: kw['offset'] = o
+                if l is not None: kw['length'] = l
+                rr = attempt(lambda: cls_of(cls)(src, **kw))
+                made.append(rr[1] if rr[0] == 'ok' else None)
+            bins0 = [m_.bin if m_ is not None else None for m_ in made]
+            wr = attempt(lambda: (src.seek(0), src.write(bytes(b ^ 0xff for b in raw) + b'\x3c'), src.truncate(max(0, len(raw) - 1)), src.seek(0, 2), src.write(b'\x01\x02'))[0])
+            out['owner_writes'] = [wr[0], wr[1] if wr[0] == 'err' else None, bins0, [m_.bin if m_ is not None else None for m_ in made]]
+        if first is not None and c['battery']:
+            cls, o, l = first
+            kw = {}
+            if o is not None: kw['offset'] = o
+            if l is not None: kw['length'] = l
+            w = window_bits(raw, o, l)
+            src2, _ = make_source(c['kind'], c['state'], raw, c['k'], tmp, keep)
+            s = cls_of(cls)(src2, **kw)
+            ad = []
+            got = battery(s, w, c['seed'], ad, False)
+            exp = battery(cls_of(cls)(bin=w), w, c['seed'])
+            diffs = [[g_, e_] for g_, e_ in zip(got, exp) if g_ != e_]
+            out['battery'] = {'window': [cls, o, l], 'n_ops': len(got), 'n_diffs': len(diffs), 'diffs': diffs[:3], 'n_abs': len(ad), 'abs_diffs': [first_difference(d) for d in ad[:3]]}
+        return out
+    try:
+        return attempt(f, 30)
+    finally:
+        for k in keep:
+            try: k.close()
+            except Exception: pass
+        for p in tmp:
+            try: os.unlink(p)
+            except OSError: pass
+
+def oracle_source(c, obs):
+    raw = c['raw']; T = len(raw) * 8
+    src = f"<{c['kind']} holding the {len(raw)} bytes {bytes(raw[:24]).hex()}{'..' if len(raw) > 24 else ''}, state {c['state']} (k={c['k']})>"
+    if obs[0] != 'ok': return f"{src}: the run raised {obs}"
+    r = obs[1]
+    if r['held0'] != raw: return f"harness: {src} does not hold the bytes"
+    refusable = c['kind'] in MAY_REFUSE
+    filelike = c['kind'].startswith('file')
+    for i, ((cls, o, l, between), (status, got, held)) in enumerate(zip(c['uses'], r['uses'])):
+        what = f"{cls}({src}, offset={o}, length={l}) (use #{i + 1} of the same object{', after the caller did ' + between if between else ''}, lsb0={c['lsb0']})"
+        if held != raw: return f"{what}: the source now holds {bytes(held[:24]).hex()}"
+        if refusable and status == 'err': continue
+        if not window_valid(raw, o, l) or (filelike and T == 0):
+            if status != 'err': return f"{what} accepted a window that ends beyond the {T} bits held: bin={str(got.get('bin'))[:80]!r}"
+            continue
+        if status != 'ok': return f"{what} raised {got} although the window lies within the {T} bits held"
+        w = window_bits(raw, o, l)
+        exp = {'cls': cls, 'bin': w, 'len': len(w), 'tobytes': list(int(w + '0' * (-len(w) % 8), 2).to_bytes((len(w) + 7) // 8, 'big')) if w else [], 'count1': w.count('1'), 'eq': [True, True],
+               'rev': w[::-1], 'pos': 0}
+        if not c['lsb0']: exp['first8'] = w[:8]; exp['read'] = ['ok', w[:8]]
+        for key, e in exp.items():
+            if key in got and got[key] != e:
+                return f"{what}: {key} is {str(got[key])[:150]}, the bytes it holds give {str(e)[:150]}"
+    ow = r.get('owner_writes')
+    if ow:
+        if ow[0] != 'ok': return f"{src}: after {len(c['uses'])} bitstrings were made from it its owner can no longer write to it / resize it: {ow[1]}"
+        if ow[2] != ow[3]: return f"{src}: bitstrings made from it changed when its owner wrote to it afterwards: {str(ow[2])[:150]} -> {str(ow[3])[:150]}"
+    b = r['battery']
+    if b:
+        what = f"{b['window'][0]}({src}, offset={b['window'][1]}, length={b['window'][2]}) lsb0={c['lsb0']}"
+        if b['n_abs']:
+            name, g, e = b['abs_diffs'][0]
+            return f"{what}: {name} is {str(g)[:200]} but its bit content alone determines {str(e)[:200]}"
+        if b['n_diffs']:
+            return f"{what} differs from the bin= object of the same bits in {b['n_diffs']} operations, e.g. {str(b['diffs'][0])[:300]}"
+    return None
+
+# ---------------------------------------------------------------------------------------------------------------------------------------------
+# Operands by every route (op 'operands'). One operation  L op X  is run with the SAME bits x carried by many kinds of X: text in several spellings (cache
+# hit or not), bytes-likes, iterables, bitarrays, binary streams in every state, and bitstrings of each class built by every route (including the ways of
+# making an empty one: no argument, '', length 0, empty slice, cleared, * 0 ...), L being built by a route too. For every kind the result is what the str
+# model gives from the bits l and x alone: value, class (the class of the left bitstring operand), and it is an object of its own: editing it in place gives
+# what the model gives and changes neither L, X, the container X was made from, nor a bitstring parsed again from the same text; editing L or X afterwards
+# does not change it. Where the model has no entry (errors, lsb0 positions) all kinds must agree with the plain bin= operands.
+# ---------------------------------------------------------------------------------------------------------------------------------------------
+EMPTY_FORMS = ['noarg', 'empty_str', 'bin_empty', 'int0', 'length0', 'bytes_empty', 'slice_empty', 'mul0', 'join_nothing', 'copy_of_empty', 'cleared', 'deleted_all', 'read0', 'shift_slice']
+PLAIN_OPERANDS = ['str_bin', 'str_hex', 'str_oct', 'str_multi', 'str_spaces', 'str_cached', 'bytes', 'bytearray', 'memoryview', 'memoryview_ba', 'array_B', 'list_int', 'tuple_bool', 'list_truthy',
+                  'generator', 'iter', 'bitarray', 'bitarray_le', 'frozenbitarray'] + ['bytesio:' + s for s in BYTESIO_STATES] + ['filehandle:' + s for s in HANDLE_STATES]
+EXTRA_BS_ROUTES = ['pos', 'pos_end', 'edited', 'read_result', 'zeros_int']
+
+def operand_applies(kind, n, x):
+    k, _, a = kind.partition(':')
+    if k == 'str_hex': return n > 0 and n % 4 == 0
+    if k == 'str_oct': return n > 0 and n % 3 == 0
+    if k == 'str_multi': return n >= 2
+    if k in ('bytes', 'bytearray', 'memoryview', 'memoryview_ba', 'array_B', 'bytesio'): return n % 8 == 0
+    if k == 'filehandle': return n % 8 == 0 and n > 0
+    if k in CLASSES:
+        if a in EMPTY_FORMS:
+            if a in ('cleared', 'deleted_all'): return n == 0 and k in MUTABLE
+            if a == 'read0': return n == 0 and k in ('ConstBitStream', 'BitStream')
+            return n == 0
+        if a == 'zeros_int': return set(x) <= {'0'}
+        if a in ('pos', 'pos_end', 'read_result'): return k in ('ConstBitStream', 'BitStream')
+        if a == 'edited': return k in MUTABLE
+    return True
+
+def make_operand(kind, x, tmp, keep):
+    """(object carrying the bits x, the text it was parsed from or None)"""
+    import bitstring, bitarray, array, copy as _copy
+    n = len(x)
+    k, _, a = kind.partition(':')
+    raw = int(x, 2).to_bytes(n // 8, 'big') if n and n % 8 == 0 else b''
+    if k.startswith('str_'):
+        if k == 'str_bin': s = '0b' + x if n else ''
+        elif k == 'str_hex': s = '0x' + format(int(x, 2), f'0{n // 4}x')
+        elif k == 'str_oct': s = '0o' + format(int(x, 2), f'0{n // 3}o')
+        elif k == 'str_multi': s = f'0b{x[:n // 2]},0b{x[n // 2:]}'
+        elif k == 'str_spaces': s = f' 0b{x} ' if n else ' '
+        else:
+            s = 'bin=' + x if n else ''
+            bitstring.Bits(s); bitstring.BitArray(s)
+        return s, s
+    if k == 'bytes': return raw, None
+    if k == 'bytearray': return bytearray(raw), None
+    if k == 'memoryview': return memoryview(raw), None
+    if k == 'memoryview_ba': return memoryview(bytearray(raw)), None
+    if k == 'array_B': return array.array('B', raw), None
+    if k == 'list_int': return [int(ch) for ch in x], None
+    if k == 'tuple_bool': return tuple(ch == '1' for ch in x), None
+    if k == 'list_truthy': return promotable(x, 'list_truthy'), None
+    if k == 'generator': return (int(ch) for ch in x), None
+    if k == 'iter': return iter([ch == '1' for ch in x]), None
+    if k == 'bitarray': return bitarray.bitarray(x), None
+    if k == 'bitarray_le': return bitarray.bitarray(x, endian='little'), None
+    if k == 'frozenbitarray': return bitarray.frozenbitarray(x), None
+    if k == 'bytesio': return make_source('BytesIO', a, raw, max(1, n // 16), tmp, keep)[0], None
+    if k == 'filehandle': return make_source('file_rb', a, raw, max(1, n // 16), tmp, keep)[0], None
+    C = cls_of(k)
+    if a in EMPTY_FORMS:
+        if a == 'noarg': return C(), None
+        if a == 'empty_str': return C(''), ''
+        if a == 'bin_empty': return C(bin=''), None
+        if a == 'int0': return C(0), None
+        if a == 'length0': return C(length=0), None
+        if a == 'bytes_empty': return C(bytes=b''), None
+        if a == 'slice_empty': return C(bin='10110')[2:2], None
+        if a == 'mul0': return C(bin='101') * 0, None
+        if a == 'join_nothing': return C(bin='1').join([]), None
+        if a == 'copy_of_empty': return _copy.copy(C()), None
+        if a == 'cleared':
+            m = C(bin='1011'); m.clear(); return m, None
+        if a == 'deleted_all':
+            m = C('0xf0'); del m[:]; return m, None
+        if a == 'read0': return C('0xf0').read(0), None
+        if a == 'shift_slice': return (C(bin='1011') << 2)[4:], None
+    if a == 'zeros_int': return C(n), None
+    if a in ('pos', 'pos_end'):
+        o = C(bin=x); o.pos = (n // 2 if a == 'pos' else n); return o, None
+    if a == 'edited':
+        m = C(bin=_flip(x) + '1'); del m[-1]
+        if n: m.invert()
+        return m, None
+    if a == 'read_result':
+        st = C(bin='101' + x + '01'); st.pos = 3; return st.read(n), None
+    return build_route(C, x, a, tmp), None
+
+def operand_content(X):
+    """what a (non-text) operand holds, read back without bitstring where it is not a bitstring"""
+    import bitstring, bitarray, array
+    if isinstance(X, bitstring.Bits): return ['B', X.bin]
+    if isinstance(X, (bytearray, array.array)): return ['raw', bytes(X).hex()]
+    if isinstance(X, memoryview): return ['raw', X.tobytes().hex()]
+    if isinstance(X, bitarray.bitarray): return ['ba', X.to01()]
+    if isinstance(X, list): return ['list', [bool(v) for v in X]]
+    if isinstance(X, io.BytesIO): return ['raw', X.getvalue().hex()]
+    return None
+
+def edit_operand(X):
+    """the owner of X edits it in place (where it can be edited)"""
+    import bitstring, bitarray, array
+    if isinstance(X, bitstring.BitArray):
+        if len(X): X.invert()
+        X.append('0b1'); return True
+    if isinstance(X, (bytearray, array.array)) or (isinstance(X, memoryview) and not X.readonly):
+        for i in range(len(X)): X[i] ^= 0xff
+        return len(X) > 0
+    if isinstance(X, bitarray.bitarray) and not isinstance(X, bitarray.frozenbitarray):
+        X.invert(); return len(X) > 0
+    if isinstance(X, list):
+        X[:] = [not v for v in X]; return len(X) > 0
+    if isinstance(X, io.BytesIO):
+        v = X.getvalue(); X.seek(0); X.write(bytes(b ^ 0xff for b in v)); return len(v) > 0
+    return False
+
+def _expected_content(tag, x):
+    if tag in ('B', 'ba'): return x
+    if tag == 'raw': return int(x, 2).to_bytes(len(x) // 8, 'big').hex() if x else ''
+    return [ch == '1' for ch in x]
+
+def _bitwise(l, x, f): return ''.join('1' if f(a == '1', b == '1') else '0' for a, b in zip(l, x))
+
+# op name -> (needs a mutable L, in place, function(L, X), model(l, x, Lc, Xc, lsb0) giving the canonical result, or NOMODEL)
+NOMODEL = ['no model']
+def _B(cls, bits): return ['B', cls, bits]
+def _ops():
+    import bitstring, operator
+    from bitstring import Bits, Dtype, pack
+    eqlen = lambda l, x: len(l) == len(x)
+    def bw(f):
+        return lambda l, x, Lc, Xc, lsb0: _B(Lc, _bitwise(l, x, f)) if eqlen(l, x) else 'err'
+    def rbw(f):
+        return lambda l, x, Lc, Xc, lsb0: _B(Xc or Lc, _bitwise(l, x, f)) if eqlen(l, x) else 'err'
+    AND, OR, XOR = (lambda a, b: a and b), (lambda a, b: a or b), (lambda a, b: a != b)
+    def iop(opf):
+        def g(L, X):
+            z = L; z = opf(z, X); return z
+        return g
+    msb = lambda m: (lambda l, x, Lc, Xc, lsb0: m(l, x, Lc, Xc) if not lsb0 else NOMODEL)
+    T = {
+        'add': (False, False, lambda L, X: L + X, lambda l, x, Lc, Xc, lsb0: _B(Lc, l + x)),
+        'radd': (False, False, lambda L, X: X + L, lambda l, x, Lc, Xc, lsb0: _B(Xc or Lc, x + l)),
+        'iadd': (False, None, iop(operator.iadd), lambda l, x, Lc, Xc, lsb0: _B(Lc, x + l if lsb0 and Lc in MUTABLE else l + x)),
+        'and': (False, False, lambda L, X: L & X, bw(AND)), 'or': (False, False, lambda L, X: L | X, bw(OR)), 'xor': (False, False, lambda L, X: L ^ X, bw(XOR)),
+        'rand': (False, False, lambda L, X: X & L, rbw(AND)), 'ror': (False, False, lambda L, X: X | L, rbw(OR)), 'rxor': (False, False, lambda L, X: X ^ L, rbw(XOR)),
+        'eq': (False, False, lambda L, X: L == X, lambda l, x, Lc, Xc, lsb0: l == x), 'ne': (False, False, lambda L, X: L != X, lambda l, x, Lc, Xc, lsb0: l != x),
+        'req': (False, False, lambda L, X: X == L, lambda l, x, Lc, Xc, lsb0: l == x), 'rne': (False, False, lambda L, X: X != L, lambda l, x, Lc, Xc, lsb0: l != x),
+        'find': (False, False, lambda L, X: L.find(X), msb(lambda l, x, Lc, Xc: ([l.find(x)] if x in l else []) if x else 'err')),
+        'rfind': (False, False, lambda L, X: L.rfind(X), msb(lambda l, x, Lc, Xc: ([l.rfind(x)] if x in l else []) if x else 'err')),
+        'findall': (False, False, lambda L, X: list(L.findall(X)), msb(lambda l, x, Lc, Xc: [i for i in range(len(l) - len(x) + 1) if l.startswith(x, i)] if x else 'err')),
+        'in': (False, False, lambda L, X: X in L, lambda l, x, Lc, Xc, lsb0: (x in l) if x else 'err'),
+        'startswith': (False, False, lambda L, X: L.startswith(X), msb(lambda l, x, Lc, Xc: l.startswith(x))),
+        'endswith': (False, False, lambda L, X: L.endswith(X), msb(lambda l, x, Lc, Xc: l.endswith(x))),
+        'split': (False, False, lambda L, X: list(L.split(X)), lambda l, x, Lc, Xc, lsb0: NOMODEL if x else 'err'),
+        'join': (False, False, lambda L, X: L.join([X]), lambda l, x, Lc, Xc, lsb0: _B(Lc, x)),
+        'join3': (False, False, lambda L, X: L.join(['0b1', X, '0b0']), lambda l, x, Lc, Xc, lsb0: _B(Lc, '1' + l + x + l + '0')),
+        'ctor': (False, False, lambda L, X: type(L)(X), lambda l, x, Lc, Xc, lsb0: _B(Lc, x)),
+        'ctor_bits_kw': (False, False, lambda L, X: type(L)(bits=X), lambda l, x, Lc, Xc, lsb0: _B(Lc, x)),
+        'pack': (False, False, lambda L, X: pack('bits', X), lambda l, x, Lc, Xc, lsb0: _B('BitStream', x)),
+        'build': (False, False, lambda L, X: Dtype('bits').build(X), lambda l, x, Lc, Xc, lsb0: _B('Bits', x)),
+        'append': (True, True, lambda L, X: L.append(X), lambda l, x, Lc, Xc, lsb0: _B(Lc, x + l if lsb0 else l + x)),
+        'prepend': (True, True, lambda L, X: L.prepend(X), lambda l, x, Lc, Xc, lsb0: _B(Lc, l + x if lsb0 else x + l)),
+        'insert0': (True, True, lambda L, X: L.insert(X, 0), msb(lambda l, x, Lc, Xc: _B(Lc, x + l))),
+        'insert_mid': (True, True, lambda L, X: L.insert(X, len(L) // 2), msb(lambda l, x, Lc, Xc: _B(Lc, l[:len(l) // 2] + x + l[len(l) // 2:]))),
+        'overwrite0': (True, True, lambda L, X: L.overwrite(X, 0), msb(lambda l, x, Lc, Xc: _B(Lc, x + l[len(x):]) if len(x) <= len(l) else NOMODEL)),
+        'setslice': (True, True, lambda L, X: L.__setitem__(slice(1, 2), X), msb(lambda l, x, Lc, Xc: _B(Lc, l[:1] + x + l[2:]))),
+        'setall': (True, True, lambda L, X: L.__setitem__(slice(None, None), X), lambda l, x, Lc, Xc, lsb0: _B(Lc, x)),
+        'setter_bits': (True, True, lambda L, X: setattr(L, 'bits', X), lambda l, x, Lc, Xc, lsb0: _B(Lc, x)),
+        'iand': (True, True, lambda L, X: L.__iand__(X) and None, bw(AND)), 'ior': (True, True, lambda L, X: L.__ior__(X) and None, bw(OR)), 'ixor': (True, True, lambda L, X: L.__ixor__(X) and None, bw(XOR)),
+        'replace_old': (True, True, lambda L, X: L.replace(X, '0b10'), msb(lambda l, x, Lc, Xc: _B(Lc, l.replace(x, '10')) if x else 'err')),
+        'replace_new': (True, True, lambda L, X: L.replace('0b1', X), msb(lambda l, x, Lc, Xc: _B(Lc, l.replace('1', x)))),
+    }
+    # operations of L alone (X is not used): the result is a bitstring of its own as well, whatever route L came by
+    import copy as _copy, pickle as _pickle
+    def U(fn, m): return (False, False, lambda L, X: fn(L), lambda l, x, Lc, Xc, lsb0: m(l, Lc))
+    same = lambda l, Lc: _B(Lc, l)
+    T.update({
+        'u_mul1': U(lambda L: L * 1, same), 'u_rmul1': U(lambda L: 1 * L, same), 'u_mul2': U(lambda L: L * 2, lambda l, Lc: _B(Lc, l + l)), 'u_mul0': U(lambda L: L * 0, lambda l, Lc: _B(Lc, '')),
+        'u_lshift0': U(lambda L: L << 0, lambda l, Lc: _B(Lc, l) if l else 'err'), 'u_rshift0': U(lambda L: L >> 0, lambda l, Lc: _B(Lc, l) if l else 'err'),
+        'u_slice_full': U(lambda L: L[:], same), 'u_slice_0n': U(lambda L: L[0:len(L)], same), 'u_slice_rev_rev': U(lambda L: L[::-1][::-1], same), 'u_slice_step1': U(lambda L: L[::1], same),
+        'u_copy': U(lambda L: L.copy(), same), 'u_copycopy': U(lambda L: _copy.copy(L), same), 'u_deepcopy': U(lambda L: _copy.deepcopy(L), same),
+        'u_pickle': U(lambda L: _pickle.loads(_pickle.dumps(L)), same), 'u_invert_twice': U(lambda L: ~~L, lambda l, Lc: _B(Lc, l) if l else 'err'),
+        'u_and_self': U(lambda L: L & L, same), 'u_or_self': U(lambda L: L | L, same), 'u_xor_self': U(lambda L: L ^ L, lambda l, Lc: _B(Lc, '0' * len(l))),
+        'u_add_self': U(lambda L: L + L, lambda l, Lc: _B(Lc, l + l)), 'u_dotbits': U(lambda L: L.bits, same), 'u_unpack_bits': U(lambda L: L.unpack('bits')[0], same),
+        'u_cut_whole': U(lambda L: list(L.cut(max(1, len(L)))), lambda l, Lc: [_B(Lc, l)] if l else []), 'u_join_self': U(lambda L: type(L)().join([L]), same),
+        'u_same_class': U(lambda L: type(L)(L), same), 'u_build': U(lambda L: Dtype('bits').build(L), lambda l, Lc: _B('Bits', l)), 'u_pack': U(lambda L: pack('bits', L), lambda l, Lc: _B('BitStream', l)),
+        'u_to_BitArray': U(lambda L: bitstring.BitArray(L), lambda l, Lc: _B('BitArray', l)), 'u_to_BitStream': U(lambda L: bitstring.BitStream(L), lambda l, Lc: _B('BitStream', l)),
+        'u_to_Bits': U(lambda L: Bits(L), lambda l, Lc: _B('Bits', l)), 'u_to_ConstBitStream': U(lambda L: bitstring.ConstBitStream(L), lambda l, Lc: _B('ConstBitStream', l)),
+    })
+    return T
+UNARY_OPS = ['u_mul1', 'u_rmul1', 'u_mul2', 'u_mul0', 'u_lshift0', 'u_rshift0', 'u_slice_full', 'u_slice_0n', 'u_slice_rev_rev', 'u_slice_step1', 'u_copy', 'u_copycopy', 'u_deepcopy', 'u_pickle', 'u_invert_twice',
+             'u_and_self', 'u_or_self', 'u_xor_self', 'u_add_self', 'u_dotbits', 'u_unpack_bits', 'u_cut_whole', 'u_join_self', 'u_same_class', 'u_build', 'u_pack', 'u_to_BitArray', 'u_to_BitStream', 'u_to_Bits',
+             'u_to_ConstBitStream']
+OPERAND_OPS = ['add', 'radd', 'iadd', 'and', 'or', 'xor', 'rand', 'ror', 'rxor', 'eq', 'ne', 'req', 'rne', 'find', 'rfind', 'findall', 'in', 'startswith', 'endswith', 'split', 'join', 'join3', 'ctor',
+               'ctor_bits_kw', 'pack', 'build', 'append', 'prepend', 'insert0', 'insert_mid', 'overwrite0', 'setslice', 'setall', 'setter_bits', 'iand', 'ior', 'ixor', 'replace_old', 'replace_new']
+ONE_SHOT = ('generator', 'iter')
+
+def _fileish(kind): return 'file' in kind or 'handle' in kind
+
+def operand_cases(rng, tier):
+    bs_routes = [r for r in ALL_ROUTES if r not in ('bin',)] + EXTRA_BS_ROUTES
+    def kinds_for(n, x, count):
+        plain = [k for k in PLAIN_OPERANDS if operand_applies(k, n, x)]
+        bsk = [f'{C}:{r}' for C in CLASSES for r in (bs_routes + (EMPTY_FORMS if n == 0 else []))]
+        bsk = [k for k in bsk if operand_applies(k, n, x)]
+        if count is None: return plain + bsk
+        ks = rng.sample(plain, min(len(plain), count // 2)) + rng.sample(bsk, min(len(bsk), count - count // 2))
+        ks += [f'{C}:{rng.choice(bs_routes)}' for C in CLASSES]                       # every pair of classes in every case
+        if tier == 'quick':                                                             # (each use of a file kind makes a new temporary file: at most two such kinds per quick case)
+            fk = [k for k in ks if _fileish(k)]
+            ks = [k for k in ks if k not in fk[2:]]
+        if n == 0: ks += [f'{C}:{rng.choice(EMPTY_FORMS)}' for C in CLASSES]
+        return [k for k in dict.fromkeys(ks) if operand_applies(k, n, x)]
+    combos = [(0, 8), (8, 0), (0, 0), (8, 8), (16, 8), (8, 24), (0, 16), (3, 0), (0, 5), (5, 5), (1, 1), (24, 24), (0, 1), (12, 4)]
+    reps = 1 if tier == 'quick' else 6
+    for rep in range(reps):
+        for ln, xn in combos if tier == 'thorough' else combos[:8] + rng.sample(combos[8:], 2):
+            for Lc in CLASSES:
+                if tier == 'thorough' and rng.random() < 0.3: ln, xn = rng.choice([0, ln, rng.randrange(0, 40)]), rng.choice([0, xn, 8 * rng.randrange(0, 5)])
+                l, x = rand_bits(rng, ln), rand_bits(rng, xn)
+                lks = [k for k in kinds_for(ln, l, None) if k.startswith(Lc + ':')]
+                lk = rng.choice(lks if rng.random() < 0.2 else [k for k in lks if not _fileish(k)])
+                yield {'op': 'operands', 'lcls': Lc, 'l': l, 'x': x, 'lkind': lk, 'kinds': kinds_for(xn, x, 10 if tier == 'quick' else 24), 'lsb0': rng.random() < 0.25,
+                       'ops': (OPERAND_OPS if tier == 'thorough' or rng.random() < 0.3 else OPERAND_OPS[:3] + rng.sample(OPERAND_OPS[3:], 15)) + UNARY_OPS}
+
+def _canon(v):
+    import bitstring, types
+    if isinstance(v, bitstring.Bits): return ['B', type(v).__name__, v.bin]
+    if isinstance(v, (list, tuple)): return [_canon(t) for t in v]
+    if isinstance(v, bytes): return list(v)
+    if isinstance(v, types.GeneratorType): return [_canon(t) for t in v]
+    return v
+
+def run_operands(c):
+    import bitstring
+    from bitstring import Bits
+    T = _ops()
+    l, x, Lc = c['l'], c['x'], c['lcls']
+    keep, tmp = [], []
+    def one(opname, lkind, xkind):
+        needs_mut, inplace, fn, model = T[opname]
+        bitstring.options.lsb0 = False
+        L, _ = make_operand(lkind, l, tmp, keep)
+        X, lit = make_operand(xkind, x, tmp, keep)
+        bitstring.options.lsb0 = bool(c['lsb0'])
+        rec = {}
+        if L.bin != l or (isinstance(X, Bits) and X.bin != x): return {'harness': [L.bin, X.bin if isinstance(X, Bits) else None]}
+        r = attempt(lambda: fn(L, X))
+        res = L if (inplace and r[0] == 'ok') else r[1]
+        rec['res'] = [r[0], _canon(res)]
+        rec['L'] = L.bin; rec['X'] = operand_content(X)
+        if r[0] != 'ok' or not isinstance(res, Bits): return rec
+        rec['same'] = [res is L, res is X]
+        if isinstance(res, bitstring.BitArray) and res is not L and res is not X:
+            # phase A: the result is edited in place
+            if len(res): res.invert()
+            res.append('0b1')
+            rec['A'] = {'res': res.bin, 'L': L.bin, 'X': operand_content(X), 'reparsed': Bits(lit).bin if lit is not None else None}
+        # phase B: the operands are edited in place afterwards by their owners
+        before = res.bin
+        eX = edit_operand(X) if X is not res else False
+        eL = edit_operand(L) if (L is not res and L is not X) else False
+        rec['B'] = {'before': before, 'after': res.bin, 'edited': [eL, eX], 'reparsed': Bits(lit).bin if lit is not None else None}
+        return rec
+    def f():
+        out = {}
+        for opname in c['ops']:
+            if T[opname][0] and Lc not in MUTABLE: continue
+            per = {}
+            per['ref'] = attempt(lambda: one(opname, Lc + ':bin', 'Bits:bin'))[1]
+            for xk in (c['kinds'] if not opname.startswith('u_') else ['unary']):
+                if xk == 'unary':
+                    rr = attempt(lambda: one(opname, c['lkind'], 'Bits:bin'))
+                    per[xk] = rr[1] if rr[0] == 'ok' else {'raised': rr[1]}
+                    continue
+                if opname in ('rand', 'ror', 'rxor') and xk.startswith(('bitarray', 'frozenbitarray')): continue     # bitarray's own operator refuses the pair before bitstring is asked (Python)
+                rr = attempt(lambda: one(opname, c['lkind'], xk))
+                per[xk] = rr[1] if rr[0] == 'ok' else {'raised': rr[1]}
+            out[opname] = per
+        return out
+    try:
+        return attempt(f, 120)
+    finally:
+        bitstring.options.lsb0 = False
+        for k in keep:
+            try: k.close()
+            except Exception: pass
+        for p in tmp:
+            try: os.unlink(p)
+            except OSError: pass
+
+def _strip_cls(v):
+    if isinstance(v, list):
+        if len(v) == 3 and v[0] == 'B': return ['B', v[2]]
+        return [_strip_cls(t) for t in v]
+    return v
+
+def oracle_operands(c, obs):
+    if obs[0] != 'ok': return f"operands case {c['lcls']} {c['lkind']} x {len(c['kinds'])} kinds: the run raised {obs}"
+    T = _ops()
+    l, x, Lc, lsb0 = c['l'], c['x'], c['lcls'], c['lsb0']
+    flip1 = lambda d: ('1' + _flip(d)) if lsb0 else (_flip(d) + '1')
+    for opname, per in obs[1].items():
+        needs_mut, inplace, fn, model = T[opname]
+        ref = per.get('ref')
+        for xk, rec in per.items():
+            if xk == 'ref': continue
+            what = f"{opname}: L = <{c['lkind']} holding {l!r}>, X = <{xk} holding {x!r}>, lsb0={lsb0}"
+            if 'raised' in rec: return f"{what}: building the operands raised {rec['raised']}"
+            if 'harness' in rec: return f"{what}: the operands do not hold their bits: {rec['harness']}"
+            Xc = xk.split(':')[0] if xk.split(':')[0] in CLASSES else None
+            status, val = rec['res']
+            m = model(l, x, Lc, Xc, lsb0)
+            if m is NOMODEL or (m == 'err' and status == 'err'):
+                # no entry of the model: the plain operands Lc(bin=l), Bits(bin=x) decide (classes aside)
+                if m is NOMODEL and isinstance(ref, dict) and 'res' in ref and [status, _strip_cls(val)] != [ref['res'][0], _strip_cls(ref['res'][1])]:
+                    return f"{what}: gives {str([status, val])[:200]}, the bin= operands of the same bits give {str(ref['res'])[:200]}"
+            elif m == 'err':
+                return f"{what}: gives {str(val)[:200]} where the operands' bits alone make it an error"
+            else:
+                if isinstance(m, tuple): m = list(m)
+                if status != 'ok': return f"{what}: raised {val}; the bits give {str(m)[:200]}"
+                if val != m: return f"{what}: gives {str(val)[:260]}; the bits (and the class of the left bitstring operand) give {str(m)[:260]}"
+            if not inplace and not rec.get('same', [False])[0] and rec['L'] != l: return f"{what}: the left operand now holds {rec['L']!r}"
+            if rec['X'] is not None and rec['X'][1] != _expected_content(rec['X'][0], x): return f"{what}: the operand X now holds {rec['X']}"
+            if isinstance(val, list) and len(val) == 3 and val[0] == 'B' and status == 'ok':
+                same = rec.get('same', [False, False])
+                if val[1] in MUTABLE and not inplace and (same[0] or same[1]) and opname != 'iadd' and not (xk == 'unary' and same[1]):
+                    return f"{what}: the mutable result is the very object {'L' if same[0] else 'X'}"
+                A = rec.get('A')
+                if A:
+                    if A['res'] != flip1(val[2]): return f"{what}: the result edited in place (invert, append 1) reads {A['res']!r}, the model gives {flip1(val[2])!r}"
+                    if A['L'] != l: return f"{what}: editing the result in place changed the left operand to {A['L']!r}"
+                    if A['X'] is not None and A['X'] != rec['X']: return f"{what}: editing the result in place changed the operand X to {A['X']}"
+                    if A['reparsed'] is not None and A['reparsed'] != x: return f"{what}: after the result was edited in place Bits(<the same text>) reads {A['reparsed']!r}"
+                Bp = rec.get('B')
+                if Bp:
+                    if Bp['after'] != Bp['before']: return f"{what}: the result changed from {Bp['before']!r} to {Bp['after']!r} when its operands were edited in place afterwards (L, X edited: {Bp['edited']})"
+                    if Bp['reparsed'] is not None and Bp['reparsed'] != x: return f"{what}: afterwards Bits(<the same text>) reads {Bp['reparsed']!r}"
     return None
 
 def kind(c): return c['route'] if c['op'] == 'battery' else c['op']
@@ -602,6 +1169,8 @@ def run_impl(c):
     del _KEEP[:]
     if c['op'] == 'store': return run_store(c)
     if c['op'] == 'buffer': return run_buffer(c)
+    if c['op'] == 'source': return run_source(c)
+    if c['op'] == 'operands': return run_operands(c)
     C = cls_of(c['cls'])
     tmp = []
     try:
@@ -649,6 +1218,8 @@ def oracle_store(c, obs):
 def oracle(c, obs):
     if c['op'] == 'store': return oracle_store(c, obs)
     if c['op'] == 'buffer': return oracle_buffer(c, obs)
+    if c['op'] == 'source': return oracle_source(c, obs)
+    if c['op'] == 'operands': return oracle_operands(c, obs)
     if obs[0] != 'ok': return f"building {c['cls']} via {c['route']} ({len(c['bits'])} bits, lsb0={c['lsb0']}) raised {obs}"
     if obs[1].get('abs_diffs'):
         name, g, e = obs[1]['abs_diffs'][0]
@@ -659,7 +1230,7 @@ def oracle(c, obs):
                 f"{str(obs[1]['diffs'][0])[:300]}")
     return None
 
-def nontrivial(c, obs): return c['op'] in ('store', 'buffer') or c['route'] != 'bin'
+def nontrivial(c, obs): return c['op'] in ('store', 'buffer', 'source', 'operands') or c['route'] != 'bin'
 def classify(c, obs): return None
 
 def coq_check(c, obs):
